@@ -170,7 +170,7 @@ pub fn eval_from_bytes_bitcoin(bytes: &[u8], version_id: u8) -> EvaluatedScript 
         EvaluatedScript::new(address, ScriptPattern::Pay2Taproot)
     } else if script.is_witness_program() {
         EvaluatedScript::new(address, ScriptPattern::WitnessProgram)
-    } else if script.is_multisig() {
+    } else if script.is_multisig() && is_pushnum(bytes[bytes.len() - 2]) {
         EvaluatedScript::new(address, ScriptPattern::Pay2MultiSig)
     } else {
         EvaluatedScript::new(address, ScriptPattern::NotRecognised)
@@ -195,6 +195,13 @@ fn p2pk_to_string(script: &Script, network: Network) -> Option<String> {
         network,
     );
     Some(address.to_string())
+}
+
+/// `Script::is_multisig()` does not insist on the number of public keys in front of
+/// OP_CHECKMULTISIG (e.g. `OP_1 <key> OP_DUP OP_CHECKMULTISIG` passes), so check it here.
+#[inline]
+fn is_pushnum(opcode: u8) -> bool {
+    (opcodes::all::OP_PUSHNUM_1.to_u8()..=opcodes::all::OP_PUSHNUM_16.to_u8()).contains(&opcode)
 }
 
 /// Checks whether a script is trivially known to have no satisfying input.
